@@ -219,8 +219,7 @@ Lemma render_x_plain sp l : render_x sp (map plain_x l) = render_ref sp l.
 Proof. unfold render_x, render_ref. rewrite render_go_x_plain. reflexivity. Qed.
 
 (* the segment as the parse returns it *)
-Definition term_set (st : style) : list ascii :=
-  match st_quote st with None => operand_specials | Some _ => quoted_specials end.
+Definition term_set (st : style) : list ascii := term_specials st.
 
 Definition kseg (strip : bool) (sepc : ascii) (y : xseg) : seg :=
   let '(x, X) := y in
@@ -431,15 +430,74 @@ Proof.
   rewrite delim_close. rewrite ?aft_false. reflexivity.
 Qed.
 
+(* a quote-demarcated term in which the OTHER quote character is written bare, in pairs *)
+Lemma other_not_special q : mem_ascii (qchar (other_quote q)) (nest_specials q) = false.
+Proof. destruct q; reflexivity. Qed.
+
+Lemma nonempty_snoc a c : nonempty (snoc a c) = true.
+Proof. destruct a; reflexivity. Qed.
+
+Lemma run_nest d q S ty i m A : forall t open acc,
+  nonempty acc = true -> pairs_close (qchar (other_quote q)) open t = true ->
+  R (BN open d q S ty i m A acc) (esc_with (nest_specials q) t)
+  = Ok (BN false d q S ty i m A (acc ++ kept strip (nest_specials q) t)).
+Proof.
+  induction t as [|c r IH]; intros open acc Ha Hp.
+  - cbn in Hp. apply negb_true_iff in Hp. subst open.
+    unfold kept. destruct strip; cbn; rewrite app_nil_r_s; reflexivity.
+  - cbn [pairs_close] in Hp. cbn [esc_with].
+    destruct (mem_ascii c (nest_specials q)) eqn:Em.
+    + (* written \c *)
+      assert (Ec : Ascii.eqb c (qchar (other_quote q)) = false).
+      { destruct (Ascii.eqb c (qchar (other_quote q))) eqn:E; [|reflexivity].
+        apply Ascii.eqb_eq in E. subst c. rewrite other_not_special in Em. discriminate. }
+      rewrite Ec in Hp. cbn [run]. rewrite bs_step. cbn [bind].
+      destruct strip eqn:Es.
+      * cbn [run]. rewrite esc_step. cbn [bind]. rewrite (IH open _ (nonempty_snoc _ _) Hp).
+        unfold kept. rewrite app_snoc. reflexivity.
+      * cbn [run]. rewrite esc_step. cbn [bind]. rewrite (IH open _ (nonempty_snoc _ _) Hp).
+        unfold kept. cbn [esc_with]. rewrite Em. rewrite !app_snoc. reflexivity.
+    + destruct (Ascii.eqb c (qchar (other_quote q))) eqn:Ec.
+      * (* the other quote: a nested pair opens or closes *)
+        apply Ascii.eqb_eq in Ec. subst c. cbn [run].
+        destruct open.
+        -- rewrite nest_close. cbn [bind]. rewrite (IH false _ (nonempty_snoc _ _) Hp).
+           unfold kept. cbn [esc_with]. rewrite Em. rewrite app_snoc. destruct strip; reflexivity.
+        -- destruct acc as [|a0 r0]; [discriminate Ha|]. rewrite nest_open. cbn [bind].
+           rewrite (IH true _ (nonempty_snoc _ _) Hp).
+           unfold kept. cbn [esc_with]. rewrite Em. rewrite app_snoc. destruct strip; reflexivity.
+      * cbn [run]. rewrite plain_bnest by assumption. cbn [bind]. rewrite (IH open _ (nonempty_snoc _ _) Hp).
+        unfold kept. cbn [esc_with]. rewrite Em. rewrite app_snoc. destruct strip; reflexivity.
+Qed.
+
 Lemma term_run S i m A st term rest :
+  match st_quote st with
+  | Some q => negb (st_nest st) || pairs_close (qchar (other_quote q)) false term
+  | None => true
+  end = true ->
   R (Br S (Some TSearch) i (Some m) A "" false false)
     (match st_quote st with
-     | None => esc_with operand_specials term
-     | Some q => c1 (qchar q) ++ esc_with quoted_specials term ++ c1 (qchar q)
+     | None => esc_with (term_specials st) term
+     | Some q => c1 (qchar q) ++ esc_with (term_specials st) term ++ c1 (qchar q)
      end ++ "]" ++ rest)
   = R (Top (S ++ [(Some TSearch, ASearch i m A (kept strip (term_set st) term))])%list None A "" false false) rest.
 Proof.
-  unfold term_set. destruct (st_quote st) as [q|].
+  intros Hn. unfold term_set, term_specials. destruct (st_quote st) as [q|]; [destruct (st_nest st)|].
+  - (* quoted, the other quote character in nested pairs *)
+    cbn [negb orb] in Hn.
+    rewrite !app_assoc_s. change (c1 (qchar q) ++ ?x) with (String (qchar q) x). cbn [run].
+    rewrite quote_open_br. cbn [bind opens_term nonempty negb].
+    change (BQD true q S (Some TSearch) i (Some m) A (snoc "" (qchar q)) false false)
+      with (BN false true q S (Some TSearch) i (Some m) A (snoc "" (qchar q))).
+    rewrite run_app, run_nest by (try reflexivity; exact Hn). cbn [bind].
+    change (c1 (qchar q) ++ "]" ++ rest) with (String (qchar q) (String "]"%char rest)). cbn [run].
+    change (BN false true q S (Some TSearch) i (Some m) A ?a)
+      with (BQD true q S (Some TSearch) i (Some m) A a false false).
+    rewrite quote_close_br. cbn [bind]. rewrite close_search. cbn [bind].
+    unfold snoc. cbn [append].
+    change (String (qchar q) (kept strip (nest_specials q) term) ++ String (qchar q) "")
+      with (String (qchar q) (kept strip (nest_specials q) term ++ c1 (qchar q))).
+    rewrite undemarcate_wrapped. reflexivity.
   - rewrite !app_assoc_s. change (c1 (qchar q) ++ ?x) with (String (qchar q) x). cbn [run].
     rewrite quote_open_br. cbn [bind opens_term nonempty negb].
     rewrite run_app, run_bq_esc by (apply first_char_ok_ff). cbn [bind].
@@ -611,7 +669,7 @@ Proof.
       instantiate (1 := Top ((S ++ p) ++ [kseg strip sepc (((Some TSearch, ASearch inv m (String a r) term), st), X)])%list
                             None (String a' r') "" false false).
       cbn [kseg]. rewrite Ek.
-      destruct m; try (apply term_run).
+      destruct m; try (apply term_run; exact Ht).
       (* regex *)
       apply andb_true_iff in Ht. destruct Ht as [Ht T3].
       apply andb_true_iff in Ht. destruct Ht as [T1 T2].
